@@ -8,6 +8,7 @@ JSON-serialisability.
 import asyncio
 import enum
 import itertools
+import datetime
 import json
 import math
 import types
@@ -126,12 +127,15 @@ UNIVERSE = [
     ("dict-typeobj-O3", lambda: {"_typename": TypeObjRef("O3"), "x": 1}),
     ("dict-typeobj-Query", lambda: {"_typename": TypeObjRef("Query"), "x": 1}),
     ("exception-unprintable", UnprintableError), ("multipleexception-empty", _empty_multiple_exception),
+    # exceptions whose arguments are not strings (a missed lookup in a dict keyed by dates / tuples, an OSError, an exception given a dict)
+    ("keyerror-date-key", lambda: KeyError(datetime.date(1999, 12, 31))), ("keyerror-tuple-key", lambda: KeyError((0, 1))),
+    ("exception-dict-arg", lambda: Exception({"code": 7})), ("oserror", lambda: OSError(2, "No such file")),
     ("coroutine-raising", _raising_coro), ("awaitable-failing", _FailingAwaitable),
     ("mappingproxy", lambda: types.MappingProxyType({"_typename": "O", "x": 1, "y": "q"})),
 ]
 TE_LABELS = ["te-bare", "te-path", "te-locations", "te-located", "raise-te-located"]
 CORE = ["None", "1", "'abc'", "1.5", "True", "nan", "2^31", "dict-typename-O", "dict-typename-unknown", "exception",
-        "list", "'RED'", "'nullify'", "pyenum-RED", "decimal-almost-1", "coroutine-raising", "awaitable-failing", "dict-typeobj-O3", "dict-typeobj-O2", "exception-unprintable", "multipleexception-empty"]
+        "list", "'RED'", "'nullify'", "pyenum-RED", "decimal-almost-1", "coroutine-raising", "awaitable-failing", "dict-typeobj-O3", "dict-typeobj-O2", "exception-unprintable", "multipleexception-empty", "keyerror-date-key"]
 UDICT = dict(UNIVERSE)
 
 
@@ -259,6 +263,9 @@ def check_case(schema, engine, kind, fname, ftype, label, value, out, shape, con
                 json.dumps(resp, allow_nan=False)
             except Exception as e:  # noqa
                 clause = "not-json-serialisable"
+    if clause is None:
+        for e in resp.get("errors") or []:
+            clause = clause or explore.error_shape(e)  # "reported in errors": an entry with a string message, a list path, ...
     if clause is None:
         data = resp["data"]
         errs = resp.get("errors") or []
